@@ -261,12 +261,17 @@ def run_global(paths):
     return obs, proc, b, None
 
 
+_TIMEOUTS = [0]
+
+
 def run_tile_guarded(proc, pio, parallel, timeout):
     """proc.tile(...) in a forked child with its own session, so that a run whose
     workers died (the dispatcher then blocks forever on a full queue) is turned
     into an observation instead of hanging the check.  Returns None or an error text."""
     import signal
     import time
+    if parallel > 1 and _TIMEOUTS[0] >= 2:
+        return "parallel run skipped: two earlier parallel runs of this check did not terminate"
     errfile = str(common.workdir() / "c09_tile_error.txt")
     try:
         os.unlink(errfile)
@@ -299,6 +304,7 @@ def run_tile_guarded(proc, pio, parallel, timeout):
             except OSError:
                 pass
             os.waitpid(pid, 0)
+            _TIMEOUTS[0] += 1
             return f"tile(parallel={parallel}) did not terminate within {timeout} s"
         time.sleep(0.01)
     if os.waitstatus_to_exitcode(status) != 0:
@@ -541,7 +547,7 @@ def run(ctx, V):
         inv = fmt == "fits"
         shutil.rmtree(outdir, ignore_errors=True)
         pio = PyramidIO(outdir, default_format=fmt)
-        raised = run_tile_guarded(proc, pio, variant["parallel"], 60 if tier == "quick" else 120)
+        raised = run_tile_guarded(proc, pio, variant["parallel"], 20 if tier == "quick" else 40)
         tiles, other, locks = read_all_tiles(outdir, fmt)
         shutil.rmtree(outdir, ignore_errors=True)
         ref_tiles, ref_astro = run_reference(layout, P, fmt, refdir)
@@ -629,6 +635,7 @@ def run(ctx, V):
             d = tiles_equal(p["ref_tiles"], p["tiles"])
             if d:
                 problems.append(("C09 tiles_eq_mosaic: MultiTanProcessor tiles ~ real StudyTiling.tile_image of the pasted mosaic", "same files, same pixels", d))
+                pred = pred or ("tiles are not identical to those of the tiled mosaic (left = mosaic, right = multi-TAN run): " + d)
             ba = astro_equal(p["ref_astro"], p["astro"])
             if ba:
                 problems.append(("C09 global_wcs_eq_mosaic: ImageSet astrometry ~ mosaic's own WCS", "equal", ba))
